@@ -135,6 +135,28 @@ class LockStep:
         base = rowname.rsplit('_', 1)[0] if info.get('row') else 'undefined'
         if observe.diff(pre, post) - {'PC'}:
             self.res['nontrivial'].add('%s|%s|%s' % (rowname, tag, ctx.cfgname))
+        if self.pid == 'C12' and verdict == 'ok':
+            self.bump('negative_invariants_checked')
+            pm, qm = pre['cpsr'] & 0x1F, post['cpsr'] & 0x1F
+            x = pre['cpsr'] ^ post['cpsr']
+            why = None
+            if ref.events:
+                pass        # an exception was taken: entry legitimately changes mode, masks and execution state
+            elif pm == 0x10 and qm == 0x10 and (x & 0x1DF):
+                why = 'unprivileged-code-changed-AIF-or-M'
+            elif qm not in (0x10, 0x11, 0x12, 0x13, 0x17, 0x1B, 0x1F) and not (
+                    (qm == 0x16 and ctx.cfg['have_security_ext']) or (qm == 0x1A and ctx.cfg['have_virt_ext'])):
+                why = 'illegal-mode-installed'
+            elif pm == qm and (x & ((1 << 24) | (1 << 5))) and not (info.get('row') or '').startswith(
+                    ('subs_pc_lr', 'eret', 'rfe', 'ldm_exception_return')):
+                why = 'execution-state-bits-changed-without-exception-return'
+            if why:
+                self.report('C12|invariant|%s|%s' % (why, rowname), dict(desc, pre_cpsr='%#x' % pre['cpsr'], post_cpsr='%#x' % post['cpsr']), desc)
+        if self.pid == 'C04' and verdict == 'ok':
+            self.bump('pc_alignment_checked')
+            t = (post['cpsr'] >> 5) & 1
+            if (post['cpsr'] >> 24) & 1 == 0 and (post['PC'] & (1 if t else 3)):
+                self.report('C04|misaligned-pc|%s' % rowname, dict(desc, pc='%#x' % post['PC'], thumb=t), desc)
         if diffs:
             kinds = []
             for loc, exp, got in diffs:
